@@ -603,13 +603,13 @@ fn case_from_json(v: &Value) -> Case {
 
 pub fn run(args: &Args) -> i32 {
     let thorough = args.tier == Tier::Thorough;
-    let m = if thorough { 4 } else { 3 };
-    let bound = if thorough { 2 } else { 1 };
+    let m = if thorough { 5 } else { 4 };
+    let bound = if thorough { 3 } else { 2 };
     let mut rep = Report::new("C04", args.tier, args.seed, "model_checking");
     rep.exhaustive = true;
     rep.rule = format!(
         "family A: every control-stream frame sequence of length <= {m} over a 16-item alphabet (two SETTINGS variants, GOAWAY(0/4), CANCEL_PUSH, MAX_PUSH_ID, DATA, HEADERS, PUSH_PROMISE, the four HTTP/2 types, two grease frames, a malformed CANCEL_PUSH), extended while the reference automaton is error-free, x ending (open, FIN, RESET) x role x delivery (whole, per frame, per byte, explored with deviation bound {bound}) x own-side environment (grease off; grease on; grease on with the 4th outgoing stream never granted; the same with own writes accepted one byte at a time). family B: every sequence of <= {} unidirectional streams over 11 kinds x type varint forms 1/2/8, all arrival orders. Oracle: refimpl::h3auto (control automaton, duplicate critical streams) + exactly-once effects of SETTINGS and GOAWAY. Non-trivial = cases with >= 2 control frames or >= 2 streams.",
-        if thorough { 4 } else { 3 }
+        if thorough { 4 } else { 4 }
     );
     rep.assumptions = vec![
         "refimpl::h3auto transcribes RFC 9114 6.2/7.2.4 (unit-tested); grease-before-SETTINGS, CANCEL_PUSH and push streams are not asserted (DESIGN.md 7)".into(),
@@ -629,7 +629,7 @@ pub fn run(args: &Args) -> i32 {
             for end in [CtrlEnding::Open, CtrlEnding::Fin, CtrlEnding::Reset] {
                 for mode in [Mode::Whole, Mode::PerFrame, Mode::PerByte, Mode::Explore] {
                     for env in envs {
-                        if mode == Mode::Explore && (seq.len() > 2 + thorough as usize || env.write_per_byte) {
+                        if mode == Mode::Explore && (seq.len() > 3 + thorough as usize || env.write_per_byte) {
                             continue;
                         }
                         let form = if mode == Mode::PerByte { 2 } else { 1 };
@@ -641,7 +641,7 @@ pub fn run(args: &Args) -> i32 {
     }
     // family B
     let kinds = [Kind::Control, Kind::Push, Kind::Encoder, Kind::Decoder, Kind::WtUni, Kind::Grease, Kind::Unknown, Kind::NoneFin, Kind::NoneReset, Kind::PartialFin, Kind::PartialReset];
-    let nmax = if thorough { 4 } else { 3 };
+    let nmax = if thorough { 4 } else { 4 };
     let mut sets: Vec<Vec<Kind>> = vec![vec![]];
     let mut frontier: Vec<Vec<Kind>> = vec![vec![]];
     for _ in 0..nmax {
